@@ -1,14 +1,28 @@
-"""setup: warm the build caches (Kani target dir); everything is re-derived from /repo by the checks anyway"""
+"""setup: warm the build caches (Kani target dir, native zeep / helper / driver, MIR dump). Every check re-derives
+what depends on /repo from the working tree; this only saves time."""
 import os, sys
 from common import *
-import e1, e1props
+sys.path.insert(0, os.path.join(VERIF, 'smi'))
 
 
 def main():
     ensure_dirs()
+    import e1, e1props, native
+    rc = 0
+    try:
+        print('helper:', native.build_helper())
+        print('zeep  :', native.build_zeep())
+        print('driver:', native.build_driver())
+        print('mir   :', native.dump_mir())
+    except Exception as e:
+        print('native warm-up failed:', str(e)[-1500:])
+        rc = 1
     with Lock('kani'):
         crate = e1.gen_crate(['c19'])
         e1props.gen_tables(crate)
-        res, out, rc, wall = e1.run_harnesses('c19', ['c19_default_clone_deref'], jobs=2, timeout=1500)
-        print('kani warm-up: rc=%s %.0fs %s' % (rc, wall, res['c19_default_clone_deref']['status']))
-    return 0
+        res, out, krc, wall = e1.run_harnesses('c19', ['c19_default_clone_deref'], jobs=2, timeout=1800)
+        print('kani warm-up: rc=%s %.0fs %s' % (krc, wall, res['c19_default_clone_deref']['status']))
+        if res['c19_default_clone_deref']['status'] != 'SUCCESSFUL':
+            print(out[-1500:])
+            rc = 1
+    return rc
